@@ -252,7 +252,7 @@ func judgeC06Run(c c06Case, obs *c06Obs, plan map[int]string) *Violation {
 				if b.ack == nil && n != 1 {
 					return violf("batch %d was acknowledged with nil but its row id %d is visible %d times on %s (%s)", bi, id, n, v.name, desc)
 				}
-				if b.ack != nil && n != 0 && !c.FSMeta {
+				if b.ack != nil && n != 0 && (!c.FSMeta || !cleanupFaultFired(obs)) {
 					return violf("batch %d was answered with an error (%v) but its row id %d is visible %d times on %s (%s)", bi, b.ack, id, n, v.name, desc)
 				}
 			}
@@ -271,6 +271,86 @@ func judgeC06Run(c c06Case, obs *c06Obs, plan map[int]string) *Violation {
 			if !b.bad && b.ack != nil {
 				return violf("fault-free run: batch %d of marshalable rows was answered with an error: %v", bi, b.ack)
 			}
+		}
+	}
+	return nil
+}
+
+// cleanupFaultFired: with FileSystemDataStore as the MetaStore a flush is
+// published by the writer's Close and un-published by Abort/TombstoneFile; the
+// "error means absent" clause is judged there too, except when one of those
+// cleanup calls itself was made to fail (then nothing atomic is left to rely on).
+func cleanupFaultFired(obs *c06Obs) bool {
+	for _, f := range obs.fired {
+		if len(f) >= 5 && (f[:5] == "Abort" || (len(f) >= 9 && f[:9] == "Tombstone")) {
+			return true
+		}
+	}
+	return false
+}
+
+// genC06Bad: histories aimed at batch atomicity on rejection — partitioned
+// engines, multi-partition batches, limits mostly out of reach so that earlier
+// good batches are still buffered when a batch with an unmarshalable row arrives.
+func genC06Bad() *rapid.Generator[c06Case] {
+	return rapid.Custom(func(t *rapid.T) c06Case {
+		c := c06Case{Data: pick(t, "data", []string{"mem", "mem-noabort", "mem"})}
+		c.Cfg = drawCfg(t, "default", numFieldPool, true)
+		c.Cfg.BufTimeMs = 0
+		c.Cfg.Partition = pick(t, "part", []string{"idmod3", "field", "idmod3", "const", "none"})
+		c.Cfg.BufRows = pick(t, "bufrows", []int{1000, 1000, 7, 12})
+		c.Cfg.RGRows = pick(t, "rgrows", []int{10000, 10000, 5})
+		c.Cfg.BufBytes = pick(t, "bufbytes", []int{1 << 20, 1 << 20, 3000})
+		c.Cfg.RGBytes = 10 << 20
+		spec := RowSpec{PartField: partFieldName, NumFields: numFieldPool}
+		n := rapid.IntRange(3, 9).Draw(t, "nsteps")
+		for i := 0; i < n; i++ {
+			if i > 0 && chance(t, "flush", 15) {
+				c.Steps = append(c.Steps, c06Step{Op: "flush"})
+				continue
+			}
+			k := rapid.IntRange(2, 6).Draw(t, "nrows")
+			st := c06Step{Op: "ingest"}
+			for j := 0; j < k; j++ {
+				st.Rows = append(st.Rows, drawRow(t, spec))
+			}
+			if i > 0 && chance(t, "bad", 50) {
+				st.Bad = 1 + unif(t, "badidx", k)
+				st.BadK = pick(t, "badkind", []string{"badchan", "badnan", "badfunc", "badinf"})
+			}
+			c.Steps = append(c.Steps, st)
+		}
+		return c
+	})
+}
+
+// runC06Bad judges the fault-free run of a rejection-heavy history (no fault
+// enumeration: the unmarshalable row is the fault).
+func runC06Bad(c c06Case) *Violation {
+	obs, v := runC06Once(c, nil)
+	if v != nil {
+		return v
+	}
+	if obs == nil {
+		return nil
+	}
+	Ev.Eval(1)
+	if v := judgeC06Run(c, obs, nil); v != nil {
+		return v
+	}
+	bad, good := 0, 0
+	for _, b := range obs.batches {
+		if b.bad {
+			bad++
+		} else {
+			good++
+		}
+	}
+	Ev.Class("badbatch:partition=" + c.Cfg.Partition)
+	if bad > 0 && good > 0 && c.Cfg.Partition != "none" && c.Cfg.Partition != "const" {
+		Ev.NonTrivial("badbatch|" + hashStrings(jsonKey(c.Steps), jsonKey(c.Cfg), c.Data))
+		if Ev.WantSample() {
+			Ev.Sample(map[string]any{"badbatch_steps": len(c.Steps), "partition": c.Cfg.Partition, "rejected_batches": bad, "good_batches": good})
 		}
 	}
 	return nil
@@ -378,7 +458,8 @@ func runC06(c c06Case) *Violation {
 
 func TestC06(t *testing.T) {
 	Ev.Level = "fault_enumeration"
-	Ev.Rule = "case = generated sequential ingest history (1-4 row batches, some with an unmarshalable row nested inside; explicit and limit-triggered flushes; partitions) over MemDataStore with/without Abort or a FileSystemDataStore, with MemoryMetaStore (atomic Update), all behind the harness's tracing wrapper. The fault-free run numbers every CreateFile/Write/Close/Abort/Update/TombstoneFile call; the history is then re-run ONCE PER POSITION with a failure there in three shapes (fail before the call; short write + error; Close that publishes and then reports failure), plus generated position pairs. Oracle after every run: nil ack => each row visible exactly once on this engine, on a fresh engine, and after a Merge; error ack => none of its rows visible in any of the three; never a row that was not ingested; unmarshalable batch => error ack and neighbours unaffected. evaluations = executions of a history under one fault plan. Non-trivial: the fault fired and the same run has >=1 nil-acked and >=1 error-acked batch; distinct by hash(history, config, store, fired faults)."
+	Ev.Rule = "case = generated sequential ingest history (1-4 row batches, some with an unmarshalable row nested inside; explicit and limit-triggered flushes; partitions) over MemDataStore with/without Abort or a FileSystemDataStore, with MemoryMetaStore (atomic Update) or the FileSystemDataStore itself as MetaStore (publish at Close; error => absent is judged there unless an Abort/TombstoneFile call was itself made to fail), all behind the harness's tracing wrapper. The fault-free run numbers every CreateFile/Write/Close/Abort/Update/TombstoneFile call; the history is then re-run ONCE PER POSITION with a failure there in three shapes (fail before the call; short write + error; Close that publishes and then reports failure), plus generated position pairs. Oracle after every run: nil ack => each row visible exactly once on this engine, on a fresh engine, and after a Merge; error ack => none of its rows visible in any of the three; never a row that was not ingested; unmarshalable batch => error ack and neighbours unaffected. badbatch phase (no injected faults): partitioned engines, 2-6 row batches over several partitions, limits mostly out of reach so earlier batches are still buffered, half of the later batches carry an unmarshalable row at a generated position; same oracle. evaluations = executions of a history under one fault plan. Non-trivial: the fault fired and the same run has >=1 nil-acked and >=1 error-acked batch; distinct by hash(history, config, store, fired faults)."
 	Ev.Assumptions = []string{"MetaStore.Update is atomic (MemoryMetaStore), as the property states", "faults are one-shot: the store is healthy again after the injected failure"}
 	runChecks(t, "faults", 25, 600, genC06(), runC06)
+	runChecks(t, "badbatch", 400, 12000, genC06Bad(), runC06Bad)
 }
